@@ -20,6 +20,43 @@ def see_through(b, keep=('advance', 'advance_mut')):
     return _ST[k]
 
 
+_ROLES = {}
+
+
+def roles(fam):
+    """private field roles of the unchecked codec, inferred from what the scalar methods do (names play no part):
+    writer cursor / window = the field the scalar writers increment by a constant / store through with
+    get_unchecked_mut; reader cursor / window likewise (window = the field re-derived with from_raw_parts)"""
+    k = id(fam.prog)
+    if k in _ROLES:
+        return _ROLES[k]
+    from collections import Counter
+    wc, ww, rc, rw = Counter(), Counter(), Counter(), Counter()
+    for d in (fam.W, fam.L):
+        for name, b in d.items():
+            for t in fam.sig(b):
+                m = t[0] == 'set' and re.match(r'bin:Add\(field:(\w+),const:\d+\)$', str(t[2]))
+                if m and m.group(1) == t[1]:
+                    wc[t[1]] += 1
+            for cs in b.calls():
+                if cs.name == 'get_unchecked_mut' and cs.t['args']:
+                    ww[_root_field(b, cs.arg(0))] += 1
+    for name, b in fam.R.items():
+        for t in fam.sig(b):
+            m = t[0] == 'set' and re.match(r'bin:Add\(field:(\w+),const:\d+\)$', str(t[2]))
+            if m and m.group(1) == t[1]:
+                rc[t[1]] += 1
+        for bb in b.bbs:
+            for st in bb['st']:
+                if 'p' in st and not bb['cleanup']:
+                    f = codec.self_field_of_place(b, st['p'])
+                    if f and any(x and x[0] == 'call' and x[1].endswith('from_raw_parts') for x in mirlib.subexprs(b.expr_rvalue(st['r']))):
+                        rw[f] += 1
+    top = lambda c: c.most_common(1)[0][0] if c else None
+    _ROLES[k] = {'w_cursor': top(wc), 'w_window': top(ww), 'r_cursor': top(rc), 'r_window': top(rw)}
+    return _ROLES[k]
+
+
 def _root_field(body, e):
     """name of the field of self an expression is rooted in"""
     x = e
@@ -52,6 +89,7 @@ def skipper_tables(rep, rule, prog, cg):
         rep.anchor_missing(rule, 'iterative unchecked skipper')
         return
     rep.functions.add(b.id)
+    R = roles(tp.Fam(prog, cg, 'binary_unsafe'))
     # (a) BINARY_BASIC_TYPE_FIXED_SIZE
     st = None
     for k, v in list(prog.statics.items()) + list(prog.consts.items()):
@@ -98,9 +136,9 @@ def skipper_tables(rep, rule, prog, cg):
                 if r.get('k') == 'bin' and r['op'] in ('Add', 'AddWithOverflow'):
                     a, c = b.expr_op(r['a']), b.expr_op(r['b'])
                     if c[0] == 'const':
-                        if a[0] == 'field' and a[2] == 'index':
+                        if a[0] == 'field' and a[2] == R['r_cursor']:
                             idx.add(c[1])
-                        elif a[0] == 'local' and a[2] == 'len':
+                        elif a[0] == 'local':          # the running count of skipped bytes (a local accumulator)
                             ln.add(c[1])
         if idx == {w} and ln == {w}:
             rep.ok(rule, key, 'index and count both advance by %d' % w, b.loc())
@@ -186,6 +224,10 @@ def _operands(r):
 # ------------------------------------------------------------------------------------------------ writer cursor discipline
 def writer_cursor(rep, rule, prog, cg):
     fam = tp.Fam(prog, cg, 'binary_unsafe')
+    R = roles(fam)
+    if None in R.values():
+        rep.anchor_missing(rule, 'cursor / window fields of the unchecked codec (%s)' % R)
+        return
     if not tp.anchors(rep, rule, fam):
         return
     for label, d in (('BytesMut', fam.W), ('LinkedBytes', fam.L)):
@@ -199,9 +241,9 @@ def writer_cursor(rep, rule, prog, cg):
                     stores.append((cs, root))
             for cs, root in stores:
                 key = '%s|%s.%s|store through %s' % (rule, label, name, root)
-                if root == 'buf':
+                if root == R['w_window']:
                     rep.ok(rule, key, 'raw store goes through the output window self.buf', cs.loc())
-                elif root == 'trans' and cs.name == 'as_mut_ptr' and _feeds_buf_rederive(b, cs):
+                elif root != R['w_window'] and cs.name == 'as_mut_ptr' and _feeds_buf_rederive(b, cs, R['w_window']):
                     rep.ok(rule, key, 'pointer taken from trans only to re-derive self.buf after a zero-copy insert', cs.loc())
                 else:
                     rep.bad(rule, key, cs.loc(), 'unchecked writer %s.%s performs a raw store through self.%s; every store must go through the output window self.buf at self.index (self.trans derefs to the *initialised* bytes only)' % (label, name, root))
@@ -209,21 +251,21 @@ def writer_cursor(rep, rule, prog, cg):
             width = {'write_byte': 1, 'write_i8': 1, 'write_i16': 2, 'write_i32': 4, 'write_i64': 8, 'write_double': 8, 'write_uuid': 16}.get(name)
             if width:
                 key = '%s|%s.%s|cursor advance' % (rule, label, name)
-                adv = [t for t in fam.sig(b) if t[0] == 'set' and t[1] == 'index']
-                want = 'bin:Add(field:index,const:%d)' % width
+                adv = [t for t in fam.sig(b) if t[0] == 'set' and t[1] == R['w_cursor']]
+                want = 'bin:Add(field:%s,const:%d)' % (R['w_cursor'], width)
                 if adv and all(t[2] == want for t in adv):
                     rep.ok(rule, key, 'index += %d' % width, b.loc())
                 else:
                     rep.bad(rule, key, b.loc(), 'unchecked writer %s.%s stores %d bytes but moves the cursor by %s' % (label, name, width, [t[2] for t in adv]))
 
 
-def _feeds_buf_rederive(b, cs):
-    # is there a later `self.buf = ...from_raw_parts_mut(...)` dominated by this call?
+def _feeds_buf_rederive(b, cs, window):
+    # is there a later `self.<window> = ...from_raw_parts_mut(...)` dominated by this call?
     for bi, bb in enumerate(b.bbs):
         if not b.dominates(cs.bb, bi):
             continue
         for st in bb['st']:
-            if 'p' in st and codec.self_field_of_place(b, st['p']) == 'buf':
+            if 'p' in st and codec.self_field_of_place(b, st['p']) == window:
                 return True
     return False
 
@@ -231,6 +273,10 @@ def _feeds_buf_rederive(b, cs):
 def zero_copy_sites(rep, rule, prog, cg):
     """LinkedBytes writer: flush the pending window (advance_mut(index)) before linking a payload, re-derive buf after"""
     fam = tp.Fam(prog, cg, 'binary_unsafe')
+    R = roles(fam)
+    if None in R.values():
+        rep.anchor_missing(rule, 'cursor / window fields of the unchecked codec (%s)' % R)
+        return
     n = 0
     for name, b in sorted(fam.L.items()):
         b = see_through(b)
@@ -242,9 +288,9 @@ def zero_copy_sites(rep, rule, prog, cg):
                 for o in b.calls():
                     if o.name == 'advance_mut' and codec.is_self(b, o.arg(0)) and b.dominates(o.bb, cs.bb) and o.bb != cs.bb:
                         a = strip_casts(o.arg(1))
-                        if a[0] == 'field' and a[2] == 'index':
+                        if a[0] == 'field' and a[2] == R['w_cursor']:
                             flushed = True
-                rederived = _feeds_buf_rederive(b, cs)
+                rederived = _feeds_buf_rederive(b, cs, R['w_window'])
                 if flushed and rederived:
                     rep.ok(rule, key, 'advance_mut(self.index) before, self.buf re-derived after', cs.loc())
                 else:
@@ -257,6 +303,10 @@ def reader_accounting(rep, rule, prog, cg):
     """unchecked reader: the lazy cursor is flushed (advance(self.index)) before the transport is split, the window is
     re-derived after, and the cursor value is not read again after it was flushed"""
     fam = tp.Fam(prog, cg, 'binary_unsafe')
+    R = roles(fam)
+    if None in R.values():
+        rep.anchor_missing(rule, 'cursor / window fields of the unchecked codec (%s)' % R)
+        return
     n = 0
     for name, b in sorted(fam.R.items()):
         rep.functions.add(b.id)
@@ -272,9 +322,9 @@ def reader_accounting(rep, rule, prog, cg):
                 for bi, bb in enumerate(b.bbs):
                     if b.dominates(bi, cs.bb):
                         for st in bb['st']:
-                            if 'p' in st and codec.self_field_of_place(b, st['p']) == 'index' and b.expr_rvalue(st['r']) == ('const', 0):
+                            if 'p' in st and codec.self_field_of_place(b, st['p']) == R['r_cursor'] and b.expr_rvalue(st['r']) == ('const', 0):
                                 reset = True
-                rederived = _feeds_buf_rederive(b, cs)
+                rederived = _feeds_buf_rederive(b, cs, R['r_window'])
                 if (pre or reset) and rederived:
                     rep.ok(rule, key, 'cursor flushed before split, window re-derived after', cs.loc())
                 else:
@@ -290,10 +340,10 @@ def reader_accounting(rep, rule, prog, cg):
                 bb = b.bbs[bi]
                 hit = None
                 for st in bb['st']:
-                    if 'p' in st and codec.self_field_of_place(b, st['p']) == 'index' and not _reads_index(b, st.get('r', {})):
+                    if 'p' in st and codec.self_field_of_place(b, st['p']) == R['r_cursor'] and not _reads_index(b, st.get('r', {}), R['r_cursor']):
                         hit = 'write'
                         break
-                    if _reads_index(b, st.get('r', {})):
+                    if _reads_index(b, st.get('r', {}), R['r_cursor']):
                         hit = ('read', st.get('ln'))
                         break
                 if hit == 'write':
@@ -308,11 +358,11 @@ def reader_accounting(rep, rule, prog, cg):
         rep.anchor_missing(rule, 'split_to sites in unchecked reader (found %d)' % n)
 
 
-def _reads_index(b, r):
+def _reads_index(b, r, cursor):
     for o in _operands(r):
         p = o.get('cp') or o.get('mv')
-        if p and codec.self_field_of_place(b, p) == 'index':
+        if p and codec.self_field_of_place(b, p) == cursor:
             return True
-    if r.get('k') in ('ref',) and codec.self_field_of_place(b, r['p']) == 'index':
+    if r.get('k') in ('ref',) and codec.self_field_of_place(b, r['p']) == cursor:
         return False
     return False
